@@ -333,9 +333,18 @@ func (c *Ctx) unitOf(v ssa.Value, seen map[ssa.Value]bool) []string {
 			case c.isUvarintDecoder(sc):
 				return []string{"FILE"}
 			}
+			// an in-package helper that computes the increment: what it returns
+			if u, ok := c.unitOfResult(sc, 0, seen); ok {
+				return u
+			}
 			return []string{"OTHER:" + fnName(sc)}
 		}
 	case *ssa.Extract:
+		if call, ok := x.Tuple.(*ssa.Call); ok && !call.Call.IsInvoke() {
+			if u, ok := c.unitOfResult(call.Call.StaticCallee(), x.Index, seen); ok {
+				return u
+			}
+		}
 		return c.unitOf(x.Tuple, seen)
 	case *ssa.Parameter:
 		// handed in by the caller(s): what they pass
@@ -392,6 +401,29 @@ func (c *Ctx) unitOf(v ssa.Value, seen map[ssa.Value]bool) []string {
 		}
 	}
 	return []string{"OTHER:" + v.String()}
+}
+
+// unitOfResult: the classification of result idx of an in-package function with
+// a body - the union over its returns (a sum accumulated in a loop is a phi of
+// its increments).
+func (c *Ctx) unitOfResult(fn *ssa.Function, idx int, seen map[ssa.Value]bool) ([]string, bool) {
+	if fn == nil || !c.inRoot(fn) || fn.Blocks == nil || idx >= fn.Signature.Results().Len() {
+		return nil, false
+	}
+	if b, ok := fn.Signature.Results().At(idx).Type().Underlying().(*types.Basic); !ok || b.Info()&types.IsInteger == 0 {
+		return nil, false
+	}
+	var out []string
+	n := 0
+	for _, b := range fn.Blocks {
+		ret, ok := b.Instrs[len(b.Instrs)-1].(*ssa.Return)
+		if !ok || idx >= len(ret.Results) {
+			continue
+		}
+		n++
+		out = append(out, c.unitOf(resolveLoad(ret.Results[idx]), seen)...)
+	}
+	return out, n > 0
 }
 
 func uniq(in []string) []string {
